@@ -20,14 +20,14 @@ Definition track_tail (priority seq : N) (terminated : bool) (frame : list N) (s
     else Some ({| rx_src := Some (seq, buf_set frame); rx_active := priority; rx_buf := buf_set frame |}, true)
   end.
 
-Lemma dmp_track_eq (ehdr d : list N) (hu : N) (ip : bool) (st : rxs) (priority seq : N) (terminated : bool) :
+Lemma dmp_track_eq (ehdr d : list N) (pu hu : N) (ip : bool) (st : rxs) (priority seq : N) (terminated : bool) :
   rd ehdr E131_OFF_priority = Some priority -> rd ehdr E131_OFF_sequence = Some seq ->
-  rd16be ehdr E131_OFF_universe = Some hu ->
+  rd16be ehdr E131_OFF_universe = Some pu ->
   rd ehdr E131_OFF_options = Some (if terminated then E131_STREAM_TERMINATED_MASK else 0) ->
   priority <= 200 -> len d <= 512 ->
   dmp_track false DMP_SET_PROPERTY_VECTOR ehdr [DMP_ADDR_HEADER]
     (be16 0 ++ be16 1 ++ be16 (u16 (len (0 :: d))) ++ 0 :: d) hu ip st
-  = track_tail priority seq terminated d st.
+  = if pu =? hu then track_tail priority seq terminated d st else Some (st, false).
 Proof.
   intros Hp Hs Hu Ho Hpri H2. unfold dmp_track.
   rewrite N.eqb_refl. cbn [negb]. cbv iota. rewrite Hp, Hs, Hu, Ho.
@@ -36,7 +36,8 @@ Proof.
     by (destruct terminated; reflexivity).
   assert (Opt2 : negb (N.land (if terminated then E131_STREAM_TERMINATED_MASK else 0) E131_STREAM_TERMINATED_MASK =? 0) = terminated)
     by (destruct terminated; reflexivity).
-  rewrite Opt, Opt2. cbn [negb andb]. rewrite N.eqb_refl. cbn [negb].
+  rewrite Opt, Opt2. cbn [negb andb].
+  destruct (N.eqb_spec pu hu) as [_|_]; cbn [negb]; [|reflexivity].
   change ((N.land 161 128 =? 0) || negb (N.land 161 64 =? 0) || negb (N.land 161 3 =? DMP_TWO_BYTES)
           || negb (N.land 161 48 / 16 =? DMP_RANGE_EQUAL)) with false. cbv iota.
   change E131_MAX_PRIORITY with 200.
@@ -63,14 +64,16 @@ Proof.
   rewrite SL. unfold track_tail. destruct (rx_src st) as [[last sb0]|]; reflexivity.
 Qed.
 
-Lemma e131_rx_build (cid name : list N) (priority seq universe : N) (terminated : bool) (d : list N)
+Lemma e131_rx_build_gen (cid name : list N) (priority seq universe hu : N) (terminated : bool) (d : list N)
       (ip : bool) (st : rxs) :
   1 <= universe -> universe <= 65534 -> priority <= 200 -> seq < 256 -> len d <= 512 ->
   exists p, e131_build_opt false cid name priority seq universe
               (if terminated then E131_STREAM_TERMINATED_MASK else 0) d = Some p /\
-            e131_rx p universe ip st =
-              match track_tail priority seq terminated d st with
-              | Some (st', ran) => SOk st' ran | None => SOob end.
+            e131_rx p hu ip st =
+              if universe =? hu then
+                match track_tail priority seq terminated d st with
+                | Some (st', ran) => SOk st' ran | None => SOob end
+              else SOk st false.
 Proof.
   intros U1 U2 Hp Hs H2. unfold e131_build_opt.
   destruct (N.eqb_spec universe 0) as [X|_]; [lia|].
@@ -111,7 +114,8 @@ Proof.
   unfold dmp. rewrite pdu_one_pack; [| reflexivity | reflexivity | rewrite !len_cons, len_nil; lia].
   replace (be_val [DMP_SET_PROPERTY_VECTOR]) with DMP_SET_PROPERTY_VECTOR by reflexivity.
   unfold ddata.
-  rewrite (dmp_track_eq hdr d universe ip st priority seq terminated); try assumption; try reflexivity.
+  rewrite (dmp_track_eq hdr d universe hu ip st priority seq terminated); try assumption; try reflexivity.
+  - destruct (universe =? hu); reflexivity.
   - unfold hdr. rewrite (rd_app_off _ _ 0) by (rewrite len_fixed; reflexivity). reflexivity.
   - unfold hdr. rewrite (rd_app_off _ _ 3) by (rewrite len_fixed; reflexivity). reflexivity.
   - unfold hdr.
@@ -119,6 +123,21 @@ Proof.
       by (try reflexivity; rewrite len_fixed; reflexivity).
     rewrite be16_join by lia. reflexivity.
   - unfold hdr. rewrite (rd_app_off _ _ 4) by (rewrite len_fixed; reflexivity). reflexivity.
+Qed.
+
+Lemma e131_rx_build (cid name : list N) (priority seq universe : N) (terminated : bool) (d : list N)
+      (ip : bool) (st : rxs) :
+  1 <= universe -> universe <= 65534 -> priority <= 200 -> seq < 256 -> len d <= 512 ->
+  exists p, e131_build_opt false cid name priority seq universe
+              (if terminated then E131_STREAM_TERMINATED_MASK else 0) d = Some p /\
+            e131_rx p universe ip st =
+              match track_tail priority seq terminated d st with
+              | Some (st', ran) => SOk st' ran | None => SOob end.
+Proof.
+  intros U1 U2 Hp Hs H2.
+  destruct (e131_rx_build_gen cid name priority seq universe universe terminated d ip st U1 U2 Hp Hs H2)
+    as (p & B & R).
+  exists p. split; [exact B|]. rewrite R, N.eqb_refl. reflexivity.
 Qed.
 
 (* ------------------------------------------------------------------ lifecycle *)
